@@ -24,6 +24,7 @@ META["explanation"] += " " + '(TB-casepair, shared with C06) both spellings of t
 META["explanation"] += " " + '(PR-expmarker, PR-accumulate: shared with C06) an exponent marker under the cursor is consumed by the exponent scanner; recognised digits are accumulated.'
 META["explanation"] += " " + '(ACC-wrap) a decimal accumulation in a loop bounded only by the end of the input is under a bound on the accumulator itself (the mantissa loops are bounded by a local 19-digit window); one named exception, the unchecked FastStringToNumber.'
 META["explanation"] += " " + '(SB-window) the two sibling computations of the 19-digit window clamp from the cursor the window starts at.'
+META["explanation"] += " " + '(FIELD-fit) in powerOfPositiveTen the biased exponent is found to be at most 2046 on every path before it is shifted into the 11-bit exponent field (must-analysis over the comparisons of that local with 2046/2047).'
 
 U64 = (1 << 64) - 1
 
@@ -222,6 +223,7 @@ def run(ctx):
     from rules.common import rule_accumulator_wrap
     rules.append(rule_accumulator_wrap(ctx, m))
     rules.append(rule_window(ctx, m))
+    rules.append(rule_field_fit(ctx, m))
     return rules
 
 
@@ -255,4 +257,82 @@ def rule_window(ctx, m):
         ok = X == Y and K == K2 and f.text(a) == E
         r.ob(f.q, f.text(x)[:90], ok, "remaining length and window start use the same cursor `%s` and the same width `%s`" % (X, K) if ok else
              "the remaining length is measured from `%s` but the window is placed at `%s` (+ %s): the clamp and the window disagree" % (X, Y, K2), f.loc(x))
+    return r
+
+
+
+def rule_field_fit(ctx, m):
+    """FIELD-fit: powerOfPositiveTen assembles the double by hand: the biased exponent is a local that is shifted left by the
+    mantissa width and OR-ed over the sign-less mantissa.  The exponent field is 11 bits wide and 2047 is reserved: a value that
+    was only range-checked by the coarse decimal test (exponent + digits <= 309) can exceed 2046 (every numeral between DBL_MAX
+    and 1e309), and shifted in unchecked it spills into the sign bit -- 4e308 became -2.5e-309.  The local that is shifted into
+    the exponent field is compared with the largest finite biased exponent first, on every path (a dominating comparison with a
+    constant in [2046, 2047] whose overflow edge does not reach the shift)."""
+    from qlib import dataflow
+    r = Rule("FIELD-fit", "the biased exponent is compared with the largest finite value before it is shifted into the exponent field", floor=1)
+    fs = [f for f in m.functions if not f.inst and f.cfg and f.q == "Qentem::Digit::powerOfPositiveTen"]
+    if not fs:
+        r.broke("Digit::powerOfPositiveTen not found")
+        return r
+    f = fs[0]
+    ctx.note_fn(f)
+    shifts = []
+    for x in f.walk():
+        n = f.nodes[x]
+        if n["k"] == "CompoundAssignOperator" and n["op"] == "<<=":
+            k = f.const_value(f.strip_casts(n["ch"][1]))
+            if k is None:
+                k = m.eval_nodes(f.nodes, f.strip_casts(n["ch"][1]))
+            ln = f.nodes[f.strip(n["ch"][0])]
+            if k == 52 and ln["k"] == "DeclRefExpr" and ln.get("dk") == "var":
+                shifts.append((x, ln))
+    # the one that feeds the exponent field: later OR-ed into the result
+    shifts = [(x, ln) for (x, ln) in shifts if any(f.nodes[y]["k"] == "CompoundAssignOperator" and f.nodes[y]["op"] == "|=" and
+                                                    f.nodes[f.strip(f.nodes[y]["ch"][1])].get("d") == ln["d"] for y in f.walk())]
+    if not shifts:
+        r.broke("powerOfPositiveTen: the shift of the biased exponent into its field was not found")
+        return r
+    blocks = f.blocks()
+    for (x, ln) in shifts:
+        # must-analysis: "checked" is established on the false edge of  exp > K / exp >= K  (true edge of  exp <= K / exp < K)
+        def test_of(c):
+            cn = f.nodes[f.strip(c)]
+            if cn["k"] != "BinaryOperator" or cn["op"] not in (">", ">=", "<", "<="):
+                return None
+            a, b = cn["ch"]
+            an, bn = f.nodes[f.strip_casts(a)], f.nodes[f.strip_casts(b)]
+            kb = f.const_value(f.strip_casts(b))
+            if kb is None:
+                kb = m.eval_nodes(f.nodes, f.strip_casts(b))
+            if an.get("d") == ln["d"] and kb is not None:
+                op = cn["op"]
+                # which edge means "fits"?
+                if op in (">", ">=") and ((op == ">" and kb in (2046,)) or (op == ">=" and kb in (2047,))):
+                    return False      # fits on the false edge
+                if op in ("<", "<=") and ((op == "<=" and kb in (2046,)) or (op == "<" and kb in (2047,))):
+                    return True
+            return None
+        fact = {f.cfg["entry"]: False}
+        work = [f.cfg["entry"]]
+        at = None
+        it = 0
+        while work and it < 4000:
+            it += 1
+            bid = work.pop()
+            st = fact[bid]
+            for e in blocks[bid]["el"]:
+                if e.get("n") == x:
+                    at = st if at is None else (at and st)
+            for (s_, kind, payload) in dataflow.successors(f, blocks[bid]):
+                out = st
+                if kind in ("true", "false") and payload is not None:
+                    t = test_of(payload)
+                    if t is not None and (kind == "true") == t:
+                        out = True
+                new_ = out if s_ not in fact else (fact[s_] and out)
+                if s_ not in fact or new_ != fact[s_]:
+                    fact[s_] = new_
+                    work.append(s_)
+        r.ob(f.q, f.text(x)[:40], bool(at), "`%s` was found to be at most 2046 on every path to the shift" % ln["n"] if at else
+             "`%s` is shifted into the 11-bit exponent field without being compared with 2046: a sum of 2048 or more lands in the sign bit (4e308 parsed to -2.5e-309)" % ln["n"], f.loc(x))
     return r
